@@ -507,6 +507,9 @@ func runC06(c *Ctx) {
 		R.Add("S.answered", shortFn(wf)+" / every complete message reaches the reply function", c.P.RelPos(wf.Pos()), st, d)
 	}
 	R.Require("S.answered", 2, "")
+	// "complete" itself: a fragment - also the only fragment of a 1-packet transfer - is not complete, the reassembled
+	// message is: otherwise one request is answered (and reported to the callbacks) twice
+	c.hasCompleteContract()
 	// ---- 4. single receive site of msgChan
 	nRecv, where := 0, ""
 	for _, fn := range c.RepoFuncs("service") {
